@@ -1918,16 +1918,31 @@ func (query *Query) execAndPostProcess() (result any, err error) {
 	if err != nil {
 		return nil, err
 	}
+	err = query.settle()
+	if err != nil {
+		return nil, err
+	}
+	return rs, nil
+}
+
+// settle waits for the asynchronous calls started so far and runs the
+// post-processors registered so far. A post-processor belongs to the evaluation
+// that registered it: once run it is dropped, a later Exec of the same query
+// registers its own
+func (query *Query) settle() error {
 	query.wg.Wait()
+	defer func() {
+		query.postProcessors = nil
+	}()
 	// by index: a post-processor may register further ones (AWAIT over a nested
 	// select adopts what that select deferred), they have to run as well
 	for i := 0; i < len(query.postProcessors); i++ {
 		err := query.postProcessors[i]()
 		if err != nil {
-			return nil, err
+			return err
 		}
 	}
-	return rs, nil
+	return nil
 }
 
 func (query *Query) Exec() (result []any, err error) {
